@@ -7,7 +7,10 @@
 
    Messages are abstracted to the list of update tokens they contain; a
    dirty Release appends one token.  Handles are numbered in order of
-   creation.  The model is parametrised by a [variant] so that the two
+   registration: the handle object a Get creates for a digest without a
+   handle is private to that Get until its last critical section, so the
+   model only keeps the message read into it (g_snap) and allocates the
+   handle when it is inserted into the map.  The model is parametrised by a [variant] so that the two
    historic shapes of the code (see docs/areas/Store.md, findings) can be
    stated and refuted next to the repaired one. *)
 From Coq Require Export List NArith Bool Arith.
